@@ -1,4 +1,5 @@
 """C14 - .deb loading exposes the package's control data and payload faithfully."""
+import gzip
 import os
 import posixpath
 import shutil
@@ -226,6 +227,23 @@ def run(chk):
         if i != "err" and why not in ("format version %r" % b"2.1\n", "format version %r" % b"2.\n"):
             chk.violate({"kind": "property", "case": lib.show_case(("debload", [b"<%d bytes>" % len(b)])), "impl": i[:300],
                          "explanation": "a package that must be rejected (%s) was loaded" % why})
+    # ONE spelling only, in another letter case than the struct's (Policy 5.1: field names are not case-sensitive; dpkg-deb
+    # builds such a control file without a warning): the loaded field is the packaged one
+    for fld in (b"Package", b"Version", b"Architecture", b"Maintainer"):
+        for spell in (fld.lower(), fld.upper()):
+            base, info = debpkg.build(chk, rng, ".gz", ".gz")
+            ct = info["ctext"]
+            line = [l for l in ct.split(b"\n") if l.startswith(fld + b":")]
+            if not line:
+                continue
+            ct2 = ct.replace(line[0] + b"\n", spell + line[0][len(fld):] + b"\n")
+            pk, _ = debpkg.build(chk, rng, ".gz", ".gz", ctl_files=[(b"./control", ct2), (b"./md5sums", b"x\n")])
+            r = chk.run_impl([("debload", [pk])])[0]
+            val = line[0].split(b": ", 1)[1]
+            shown = {b"Package": "Package=" + hx(val), b"Maintainer": "Maintainer=" + hx(val)}.get(fld)
+            if not r.startswith("ok ") or (shown and shown not in r):
+                chk.violate({"kind": "property", "class": "field-name-case", "case": lib.show_case(("debload", [pk])), "impl": r[:200], "field": spell.decode(),
+                             "explanation": "a control file whose field name is spelled in another letter case was not loaded with that field (field names are not case-sensitive)"})
     # the same bytes always give the same result
     for c, a in zip(icases[::4], impl[::4]):
         for rep in chk.run_impl([c] * 3):
@@ -346,6 +364,39 @@ def hostile_debs(chk):
                 chk.violate({"kind": "property", "case": lib.show_case(("debentries", [b"<%d bytes>" % len(c[1][0])])), "member": bytes.fromhex(name).decode("latin1"),
                              "size": int(size), "read": rd, "explanation": "a member returned in the index of a loaded package has a negative size or a reader that does not deliver exactly Size bytes"})
                 break
+    # loading reads what is IN the archive: a control tarball whose 'control' entry is a SPARSE file (512 bytes of header declaring
+    # 48 MiB of holes, which archive/tar would deliver as zeros), a directory or a symbolic link, stored and gzip-compressed -
+    # Load answers without producing more than a small multiple of its input (runtime TotalAlloc before and after)
+    def sparse_header(name, realsize, typeflag=b"S"):
+        h = bytearray(512)
+        h[0:len(name)] = name
+        h[100:108] = b"0000644\x00"; h[108:116] = b"0000000\x00"; h[116:124] = b"0000000\x00"
+        h[124:136] = b"00000000000\x00"; h[136:148] = b"00000000000\x00"
+        h[156:157] = typeflag
+        h[257:265] = b"ustar  \x00"
+        b256 = lambda v: bytes([0x80]) + v.to_bytes(11, "big")
+        if typeflag == b"S":
+            h[386:398] = b256(realsize); h[398:410] = b"00000000000\x00"; h[483:495] = b256(realsize)
+        h[148:156] = b"        "
+        h[148:156] = b"%06o\x00 " % sum(h)
+        return bytes(h)
+    costly = []
+    for typeflag, size in ((b"S", 48 << 20), (b"S", 1 << 62), (b"5", 0), (b"2", 0)):
+        ctar = sparse_header(b"./control", size, typeflag) + bytes(1024)
+        for cname, cdata in ((b"control.tar", ctar), (b"control.tar.gz", gzip.compress(ctar))):
+            ms = [debpkg.member(b"debian-binary", b"2.0\n"), debpkg.member(cname, cdata), debpkg.member(b"data.tar", bytes(1024))]
+            costly.append(argen.render(ms))
+    # (the 2^62 variants only where the loader refuses non-regular control entries: ask the 48 MiB one first)
+    probe = chk.run_impl([("debloadcost", [costly[0]])])[0]
+    cc = [("debloadcost", [b]) for k, b in enumerate(costly) if probe.endswith(" alloc=0") or "alloc=" in probe and int(probe.split("alloc=")[1]) < (8 << 20) or k not in (2, 3)]
+    ci = chk.run_impl(cc)
+    chk.record("entries-that-declare-more-than-they-store", cc, ci, lambda c, r: True)
+    for c, r in zip(cc, ci):
+        alloc = int(r.split("alloc=")[1]) if "alloc=" in r else -1
+        if alloc < 0 or alloc > 64 * len(c[1][0]) + (8 << 20):
+            chk.violate({"kind": "property", "case": lib.show_case(c), "impl": r, "input_bytes": len(c[1][0]),
+                         "explanation": "loading a small .deb allocated far more than its input holds: a control entry that declares data it does not store (a sparse file) was expanded"})
+            break
     # members that share the control. / data. prefix without being tarballs (control.sig, data.tar.gz.bak, ...): which
     # member the loader meets first depends on Go's map order, so each package is loaded many times - the outcome
     # must be the same every time (that such a package must be refused is C16's business, checked there)
